@@ -69,7 +69,7 @@ from harness.lib import op
 
 ID = "C12"
 LEAN = {
-    "modules": ["GfaProofs.Bridge.Cigar", "GfaProofs.Bridge.Geometry", "GfaProofs.C12", "GfaProofs.C12Orient", "GfaProofs.Lemmas.CigarText"],
+    "modules": ["GfaProofs.Bridge.Cigar", "GfaProofs.Bridge.Geometry", "GfaProofs.C12", "GfaProofs.C12Orient", "GfaProofs.Bridge.PathOrient", "GfaProofs.Lemmas.CigarText"],
     "support": ["GfaProofs.Lemmas.Digits", "GfaModel.Cigar", "GfaModel.CigarText", "GfaModel.GraphObs"],
     "theorems": [
         "Gfa.C12.compl_compl", "Gfa.C12.refLen_compl", "Gfa.C12.queryLen_compl", "Gfa.C12.compl_length",
@@ -78,7 +78,7 @@ LEAN = {
         "Gfa.C12.isEql_iff", "Gfa.C12.canonical_or", "Gfa.C12.canonical_xor", "Gfa.C12.canon_canonical",
         "Gfa.C12.canon_eql", "Gfa.C12.compatible_either_form",
         "Gfa.C12.orient_flips", "Gfa.C12.orient_both_ways", "Gfa.C12.compl_direct_eq", "Gfa.C12.compl_compl_eq",
-        "Gfa.C03.pathLinks_perm",
+        "Gfa.C03.pathLinks_perm", "Gfa.Bridge.PathOrient.linkOrient_eq",
         "Gfa.Bridge.Cigar.flip_table", "Gfa.Bridge.Cigar.len_table", "Gfa.Bridge.Cigar.compl_reverses",
         "Gfa.Bridge.Cigar.compl_pure", "Gfa.Bridge.Cigar.codes_complete", "Gfa.Bridge.Geometry.invert_table",
         "Gfa.Bridge.Geometry.link_ends",
